@@ -6,6 +6,8 @@ set -u
 tier="$1"; jobs="$2"; shift 2
 ids="C01 C02 C03 C04 C05 C06 C07 C08 C09 C10 C11 C12 C13 C14 C15 C16 C17 C18 C19 C20"
 tmp=$(mktemp -d /tmp/parmx.XXXX)
+# snapshot of the harness sources, so that edits made while the matrix runs do not leak into it
+rsync -a /verif/harness/ "$tmp/harness-snap/"; export HARNESS_SRC="$tmp/harness-snap"
 i=0
 for s in "$@"; do
   s=${s%/}; name=$(basename "$s"); slot=$((i % jobs)); i=$((i+1))
